@@ -1,0 +1,37 @@
+//go:build verif
+
+// Contracts for package consensus, checked by /verif/govc (comment-only; see /verif/DESIGN.md).
+package consensus
+
+// ---------------------------------------------------------------- C15: WAL record framing
+// record = be32(crc32c(data)) ++ be32(len(data)) ++ data, len(data) <= maxMsgSizeBytes.
+
+//@ trusted func WALToProto(msg WALMessage) (r *kcons.WALMessage, err error)
+//@ trusted func WALFromProto(msg *kcons.WALMessage) (r WALMessage, err error)
+
+//@ func (enc *WALEncoder) Encode(v *TimedWALMessage) (err error)
+//@   for C15
+//@   requires enc != nil && enc.wr != nil && v != nil
+//@   modifies *
+//@   allocbound 1048576 + 24 + 8
+//@   atcall Writer.Write requires [sizeLimit] len(data) <= maxMsgSizeBytes
+//@   atcall Writer.Write requires [framed] len(p) == 8 + len(data) && binary.u32be(p[4:8]) == len(data) && binary.u32be(p[0:4]) == crc32.crcOf(content(data))
+//@   atcall Writer.Write requires [payloadCopied] forall i int :: 0 <= i && i < len(data) ==> p[8 + i] == data[i]
+
+//@ func (dec *WALDecoder) Decode() (msg *TimedWALMessage, err error)
+//@   for C15
+//@   safe
+//@   requires dec != nil && dec.rd != nil
+//@   modifies *
+//@   allocbound 1048576 + 24
+//@   atcall Unmarshal requires [crcCheckedBeforeUse] crc32.crcOf(content(buf)) == crc && len(buf) == length && length <= maxMsgSizeBytes
+//@   ensures [messageOrError] err == nil ==> msg != nil
+
+// Searching for a height's end marker: a clean "not found" is returned only after every file was
+// scanned, or after a file whose last end marker is older than the height searched for.
+//@ func (wal *BaseWAL) SearchForEndHeight(height int64, options *WALSearchOptions) (rd io.ReadCloser, found bool, err error)
+//@   for C15
+//@   requires wal != nil && options != nil
+//@   modifies *
+//@   ensures [foundHasReader] found ==> err == nil && rd != nil
+//@   ensures [notFoundOnlyWhenPast] !found && err == nil ==> index < min || (lastHeightFound > 0 && lastHeightFound < height)
